@@ -575,7 +575,7 @@ class Mesh:
             for tri in self.triangles:
                 file.write(tri.mat.encode('ascii') + b'\n')
                 for vert in tri:
-                    # If there's only one bone, it's the first value.
+                    # If there's only one bone with full weight, it's the first value.
                     # Otherwise they're appended to the end and the first is
                     # ignored (but must be valid).
                     assert len(vert.links) > 0
@@ -589,7 +589,7 @@ class Mesh:
                             vert.tex_u, vert.tex_v,
                         )
                     )
-                    if len(vert.links) > 1:
+                    if len(vert.links) > 1 or vert.links[0][1] != 1.0:
                         file.write(b' %i' % (len(vert.links), ))
                         for bone, weight in vert.links:
                             file.write(b' %i %.6f' % (bone_indexes[bone], weight))
